@@ -46,13 +46,26 @@ def h_parse( ctx ):
     skip_test_node = [ nd for nd in cfg.nodes if nd.kind == 'test' and nd.stmt is skip_if ][0]
     head = [ nd for nd in cfg.nodes if nd.kind == 'for' and nd.stmt is lp ][0]
 
+    # which outcome of the test is "skip"?  decided by evaluating the test on a blank line, a comment and a record (not by its spelling)
+    from .fold import fold, NoFold
+    try:
+        tv = { k: bool( fold( skip_if.test, { L: v } )) for k, v in (( 'blank', '' ), ( 'comment', '# note' ), ( 'record', '1.5\t2\t{}' )) }
+    except NoFold as exc:
+        raise AnalysisError( 'parse_record: skip test outside the modelled subset: %s' % exc )
+    if tv['blank'] == tv['comment'] != tv['record']:
+        SKIP_LABEL = 'true' if tv['blank'] else 'false'
+        res.ok( src, skip_if, 'blank lines and comment lines take the same branch of the test, records the other' )
+    else:
+        res.bad( src, skip_if, skip_if.test, "blank lines and lines starting with '#' must be told apart from records (blank: %s, comment: %s, record: %s)" % ( tv['blank'], tv['comment'], tv['record'] ))
+        return res
+
     def transfer( n, label, st ):
         if n is head:
             if label == 'true':
                 return 'line'
             return st				# loop exit keeps whatever the variable holds
-        if n is skip_test_node:
-            return 'skip' if label == 'true' else 'rec'
+        if n is skip_test_node and label in ( 'true', 'false' ):
+            return 'skip' if label == SKIP_LABEL else 'rec'
         if n.kind == 'stmt' and _stores_to( n.stmt, L ) and label != 'exc':
             if _falsy_const( n.stmt.value ):
                 return 'none'
@@ -655,6 +668,19 @@ def h_load( ctx ):
             res.ok( src, up[0], 'no record at or beyond `upcoming` is applied' )
         else:
             res.bad( src, w, 'upcoming', 'records at or beyond the `upcoming` timestamp must stay queued' )
+    # ---- a record pulled from the generator by the `for` is never dropped: every return from inside the record loop has first passed the
+    #      point where the record is classified (the `js is None` test) - a return taken before that loses the record the loop header
+    #      has already consumed
+    jsn = [ nd for nd in cfg.nodes if nd.kind == 'test' and pmatch( nd.expr, '%s is None' % JS ) is not None and nd.stmt in lp.body ]
+    rets_in = [ nd for nd in cfg.nodes if nd.kind == 'stmt' and isinstance( nd.stmt, ast.Return ) and any( a is lp for a in src.ancestors( nd.stmt )) ]
+    if jsn:
+        first = [ m_ for m_, l_ in cfg.succ[head] if l_ == 'true' ]
+        lost = [ r for r in rets_in if first and not cfg.must_pass( first[0], r, jsn, correlated=False ) ]
+        if lost:
+            res.bad( src, lost[0].stmt, 'return inside the record loop before the pulled record is examined: %s' % norm_text( lost[0].stmt ),
+                     'the `for` header has already taken the next record from the file generator; returning here discards it - with load( limit=N ) one record is lost at every limit-triggered return' )
+        elif rets_in:
+            res.ok( src, rets_in[0].stmt, 'every return inside the record loop comes after the pulled record was classified and queued (%d returns)' % len( rets_in ))
     # ---- a not-yet-due announcement switches to AWAITING and leaves the loop without consuming anything
     aw = [ s for s in lp.body if isinstance( s, ast.If ) and pmatch( s.test, '%s is None' % JS ) ]
     if aw and any( isinstance( b, ast.Break ) for b in aw[0].body ) and any( isinstance( b, ast.Assign ) and 'AWAITING' in attrs_in( b.value ) for b in aw[0].body ):
